@@ -1,13 +1,88 @@
+// Command pwv is the static verifier for the psql-wire properties C01..C20.
+//
+//	pwv -prop C05 -tier quick|thorough [-repo /repo] [-verif /verif] [-replay file]
+//
+// Exit 0: every rule of the property was decided and holds (open known findings are printed);
+// exit 1: at least one unlisted violation (a VIOLATION line per violation);
+// exit 2: infrastructure failure (load / type error, analyser panic).
 package main
 
 import (
+	"encoding/json"
+	"flag"
 	"fmt"
+	"os"
+	"runtime/debug"
+	"strconv"
 
-	_ "golang.org/x/tools/go/callgraph/cha"
-	_ "golang.org/x/tools/go/callgraph/vta"
-	_ "golang.org/x/tools/go/packages"
-	_ "golang.org/x/tools/go/ssa"
-	_ "golang.org/x/tools/go/ssa/ssautil"
+	"pwv/internal/core"
+	"pwv/internal/rules"
 )
 
-func main() { fmt.Println("ok") }
+func main() {
+	prop := flag.String("prop", "", "property id (C01..C20)")
+	tier := flag.String("tier", "", "quick | thorough (default: $VERIF_TIER or quick)")
+	repo := flag.String("repo", "/repo", "repository working tree to analyse")
+	verif := flag.String("verif", "/verif", "verification directory (evidence, known findings)")
+	replay := flag.String("replay", "", "violation report to re-evaluate on the current tree")
+	flag.Parse()
+
+	if *tier == "" {
+		*tier = os.Getenv("VERIF_TIER")
+	}
+	if *tier != "thorough" {
+		*tier = "quick"
+	}
+	seed := 0
+	if s := os.Getenv("VERIF_SEED"); s != "" {
+		if n, err := strconv.Atoi(s); err == nil {
+			seed = n
+		}
+	}
+	replayKey := ""
+	if *replay != "" {
+		b, err := os.ReadFile(*replay)
+		if err != nil {
+			fmt.Println("ERROR:", err)
+			os.Exit(2)
+		}
+		var doc struct {
+			Property   string `json:"property"`
+			Obligation struct {
+				Key string `json:"key"`
+			} `json:"obligation"`
+		}
+		if err := json.Unmarshal(b, &doc); err != nil {
+			fmt.Println("ERROR:", err)
+			os.Exit(2)
+		}
+		replayKey = doc.Obligation.Key
+		if *prop == "" {
+			*prop = doc.Property
+		}
+	}
+	run, ok := rules.Registry[*prop]
+	if !ok {
+		fmt.Printf("ERROR: unknown property %q\n", *prop)
+		os.Exit(2)
+	}
+
+	code := func() (code int) {
+		defer func() {
+			if r := recover(); r != nil {
+				fmt.Printf("ERROR: analyser panic: %v\n%s\n", r, debug.Stack())
+				code = 2
+			}
+		}()
+		p, err := core.Load(core.LoadOpts{Repo: *repo})
+		if err != nil {
+			fmt.Println("ERROR:", err)
+			return 2
+		}
+		rep := core.NewReport(*prop, *tier, seed)
+		ctx := &rules.Ctx{P: p, R: rep, Tier: *tier, Repo: *repo, Verif: *verif}
+		run(ctx)
+		return rep.Finish(*verif, replayKey)
+	}()
+	os.Exit(code)
+}
